@@ -274,6 +274,23 @@ class Ctx:
         """Satisfiability of pc + extra with lemma tiers; returns 'sat' | 'unsat' | 'unknown'."""
         tier = tier or self.o['max_tier']
         t0 = time.time()
+        if use_facts and self.o.get('staged_facts') and self.extra_lemmas and not getattr(self, '_in_stage', False):
+            # first only the contract facts that speak about nothing but the contract symbols of the query itself (e.g. the ordering of eigenvalues,
+            # without the eigen-equations): fewer assumptions, so `unsat` is final; anything else goes on to the transitive closure
+            base = list(extra) + (list(self.pc) if use_pc else [])
+            cur = self._contract_syms(base)
+            direct = [f for f, syms in zip(self.extra_lemmas, self._fact_syms) if syms and syms <= cur]
+            if direct and len(direct) < len(self._relevant_facts(base)):
+                self._in_stage = True
+                try:
+                    saved = self.extra_lemmas, self._fact_syms
+                    self.extra_lemmas, self._fact_syms = direct, [self._contract_syms([f]) for f in direct]
+                    r = self.check(*extra, tier=tier, timeout=min(int(timeout or self.o['timeout']), 20000), use_pc=use_pc, min_tier=min_tier, use_facts=True)
+                finally:
+                    self.extra_lemmas, self._fact_syms = saved
+                    self._in_stage = False
+                if r == 'unsat':
+                    return r
         fs = (list(self.pc) if use_pc else []) + (self._relevant_facts(list(extra) + (list(self.pc) if use_pc else [])) if use_facts else []) + list(extra)
         if getattr(self, 'elim', None):
             fs = [z3.substitute(f, *self.elim) for f in fs]
@@ -397,7 +414,7 @@ class Ctx:
         self.extra_lemmas.append(t)
         self._fact_syms.append(self._contract_syms([t]))
 
-    CONTRACT_STEMS = ('fitp!', 'solve!', 'odr!', 'root!', 'lstsq!', 'inv_c!', 'eig!', 'chol!')
+    CONTRACT_STEMS = ('fitp!', 'solve!', 'odr!', 'root!', 'lstsq!', 'inv_c!', 'eig!', 'chol!', 'trsolve!', 'cond!')
 
     def _contract_syms(self, fs):
         seen, out, st = set(), set(), list(fs)
@@ -631,7 +648,18 @@ class Ctx:
             return ok
         r = self.check(goal, use_facts=use_facts)
         if r != 'unsat' and not use_facts:
-            r = self.check(goal)      # an identity that was expected to hold without the contract facts: retry with them
+            # an identity that was expected to hold without the contract facts: retry with them
+            if self.o.get('staged_facts') and r == 'sat':
+                # large contract systems (eigen-decompositions): a bounded attempt only; the counterexample found without the facts stays the candidate
+                # and the concrete replay against the real code decides
+                keep = (self.last, self.last_tier)
+                r2 = self.check(goal, timeout=15000)
+                if r2 == 'unsat':
+                    r = r2
+                elif r2 != 'sat':
+                    self.last, self.last_tier = keep
+            else:
+                r = self.check(goal)
         d = self._record(label, r, tier=self.last_tier, t=round(time.time() - t0, 3))
         if r == 'sat':
             d['model'] = self.model_values()
